@@ -5,6 +5,11 @@ P=$1; WT=/tmp/wt4/$P; O=/tmp/seed4/$P; L=/tmp/seedout4
 RACE=""; [ $P = C12 ] && RACE="-race"
 rundemo() { # $1=k $2=tag
   k=$1
+  # shared demo module with one file per mutant: run exactly the tests of demo<k>_test.go
+  if [ -f "$O/demo/go.mod" ] && [ -f "$O/demo/demo${k}_test.go" ]; then
+    names=$(grep -o '^func Test[A-Za-z0-9_]*' "$O/demo/demo${k}_test.go" | sed 's/^func //' | paste -sd'|')
+    (cd "$O/demo" && go test $RACE -count=1 -run "^($names)\$" ./... >$L/$P.demo$k.$2.log 2>&1); return $?
+  fi
   if [ -f "$O/demo$k/go.mod" ]; then (cd "$O/demo$k" && go test $RACE -count=1 ./... >$L/$P.demo$k.$2.log 2>&1); return $?
   elif [ -f "$O/go.mod" ] && [ -d "$O/demo$k" ]; then (cd "$O" && go test $RACE -count=1 ./demo$k/ >$L/$P.demo$k.$2.log 2>&1); return $?
   elif [ -f "$O/demo/go.mod" ]; then (cd "$O/demo" && go test $RACE -count=1 -run "(Demo|Mutant)$k([^0-9]|\$)" ./... >$L/$P.demo$k.$2.log 2>&1); return $?
